@@ -203,6 +203,16 @@ def check(pid, tier, seed, replay=None):
             for script, rr, k, e in hbads:
                 v.violation("hlog schedule %s: a request's event does not carry exactly its own derivation: %s" % (script["id"], json.dumps(e)[:300]),
                             {"property": pid, "kind": "hlog", "script": script, "recording": [json.loads(x) for x in rr], "bad_line": k + 1})
+        # loggers carried in a context.Context (Logger.WithContext / zerolog.Ctx, ctx.go): storing one further in must not change
+        # what an outer context, a sibling context or the base yields - every history of spec/aux/CtxStore.tla within its bound
+        cx_n = 0
+        if not replay:
+            from checks import ext
+            crecs, cbads, cstats = ext.ctx_part(sc, tier)
+            cx_n = len(crecs)
+            for script, e in cbads:
+                v.violation("context history %s: the logger found in a context is not the one stored there: %s" % (script["id"], json.dumps(e)[:300]),
+                            {"property": pid, "kind": "ctxstore", "script": script, "recording": e})
         # auxiliary: different nodes of one tree used by real goroutines under the race detector
         rp2 = go_build("./players/tree_race", sc.path("tree-race-bin"), race=True)
         import os
@@ -218,9 +228,9 @@ def check(pid, tier, seed, replay=None):
             stats["race_detector_rounds"] = rr["rounds"]
         samples = [{"script": json.loads(s), "recording": [json.loads(x) for x in rr][:12]} for s, rr in recs[:2]]
         cov = {"states": max(1, stats.get("distinct", 1)), "transitions": max(1, stats.get("generated", 1)), "traces_validated_against_impl": len(recs),
-               "samples": samples, "model": stats, "programs": len(scripts), "hlog_request_schedules": hl_n, "emissions_validated": sum(1 for _, rr in recs for x in rr if '"a":"Emit"' in x),
+               "samples": samples, "model": stats, "programs": len(scripts), "hlog_request_schedules": hl_n, "context_store_histories": cx_n, "emissions_validated": sum(1 for _, rr in recs for x in rr if '"a":"Emit"' in x),
                "known_findings_matched": {k: n for k, (n, _) in v.known.items()}, "exhaustive": False,
-               "checker_cmd": "tlc LoggerTree.tla (Independent, VIEW View); tlc LoggerTreeTrace.tla"}
+               "checker_cmd": "tlc LoggerTree.tla (Independent, VIEW View); tlc LoggerTreeTrace.tla; tlc CtxStore.tla + AuxTrace.tla"}
         write_evidence(pid, tier, seed, "model_checking", cov, time.time() - t0, len(v.violations),
                        assumptions=["programs stay within the shapes the statement allows (Context values used once; UpdateContext on a logger fresh from With()...Logger())",
                                     "field values are 150 bytes so that the 500-byte With() capacity is crossed after three fields, as Cap = 3 in the model"])
